@@ -563,6 +563,8 @@ DoMalformed ==
        \/ emit' = <<Rv(ErrAny), Rv(MsgReady), CloseEv>> /\ Closed /\ UNCHANGED skip
        \/ emit' = <<Rv(ErrAny), Rv(MsgReady)>> /\ UNCHANGED <<skip, phase>>
        \/ emit' = <<Rv(ErrAny)>> /\ skip' = TRUE /\ UNCHANGED phase
+       \/ \* a COPY message outside COPY mode is ignored whatever its body
+          Head1.ty \in {"d", "c", "f"} /\ emit' = <<>> /\ UNCHANGED <<skip, phase>>
     /\ UNCHANGED <<cfg, ssl, mwi, cparams, eof, faulted, stmts, portals, hq, h>>
 
 \* Oversized or malformed input before the session exists ends the
